@@ -540,6 +540,19 @@ example : ∃ f f', load [91, 97, 93, 32, 107, 32, 61, 32, 118, 10, 91, 98, 93, 
       (.refl _) (Or.inl rfl) (by decide +kernel))
     (Or.inl rfl) (by decide +kernel)
 
+/-- … with the shape as a decidable predicate (`insCheck`). -/
+theorem C28_full_keys_on_header_lines_checked (f f' : FileS) (op : AnyOp) (h : applyAny f op = .ok f')
+    (hs : fileFromBytes (render f'.toFile.events) = some f'.toFile)
+    (hc : ∀ revs, parseRaw (render f'.toFile.events) = some revs → ∀ e ∈ revs, e.canon = true)
+    (hins : insCheck f'.toFile.events f'.toFile.aug = true) :
+    ∃ g, load f'.write = some g ∧ g.view = f'.view ∧ g.comments = f'.comments :=
+  C28_full_keys_on_header_lines f f' op h hs hc (insCheck_sound _ _ hins)
+
+example : ∃ f f', load [91, 97, 93, 32, 107, 32, 61, 32, 118, 10, 91, 98, 93, 32, 106, 32, 61, 32, 49, 10] = some f ∧
+    applyAny f (.single (.set [98] none [106] [50])) = .ok f' ∧
+    insCheck f'.toFile.events f'.toFile.aug = true := by
+  refine ⟨_, _, rfl, rfl, by decide +kernel⟩
+
 /-- The property in full (NOT proved): after any call that succeeds, serializing and re-parsing
 gives the view the call means, i.e. `view (load (write (apply f op))) = view (apply f op)`.
 Evaluated by the harness oracle. -/
